@@ -533,13 +533,15 @@ _add(Prop(
             "than the bound - for struct-only adaptors no allocator call is reachable from next() at all, so the bound is "
             "immaterial there, but that is an observation from the slice, not a separate verdict",
     stubs=["alloc::alloc::alloc / alloc_zeroed / realloc / realloc_nonnull / dealloc / dealloc_nonnull -> versions that assert "
-           "!STEADY, count, and forward to __rust_alloc / __rust_alloc_zeroed / __rust_realloc / __rust_dealloc"],
+           "!STEADY, count, and forward to __rust_alloc / __rust_alloc_zeroed / __rust_realloc / __rust_dealloc",
+           "dasp_interpolate::sinc::ops::f64::{sin,cos} -> constant 0.25 (api::rate_conversion only)"],
     assumptions=["sample values are kept small enough that no arithmetic-overflow panic (not an allocation question) ends a path early",
                  "positive controls (Vec::push, Vec growth, Box drop in the steady phase) must be REFUTED on every run, "
                  "otherwise the check reports itself inconclusive"],
     rules=[
         {"match": r"control::(vec_push|vec_grow|box_drop)", "expect": "fail"},
         {"match": r"api::graph_nodes", "timeout": 1800},
+        {"match": r"api::rate_conversion", "flags": ["--no-overflow-checks"]},
     ],
     design_ref="DESIGN.md §4 C07",
     claim="With the allocator entry points replaced by asserting stubs the solver explores every path of the real compiled "
